@@ -100,7 +100,7 @@ fn main() {
                 "C16" => c16::gen(seed, n, &mut out),
                 "C06" => c06::gen(seed, n, &mut out),
                 "C07" => c07::gen(seed, n, &mut out),
-                "C13" => c13::gen(seed, n, &mut out),
+                "C13" | "C13v" => c13::gen(prop, seed, n, &mut out),
                 "C20" => c20::gen(seed, n, &mut out),
                 "C03" => c03::gen(seed, n, &mut out),
                 "C04" => c04::gen(seed, n, &mut out),
